@@ -133,6 +133,8 @@ def gen(rng, k):
         # a JSON request (the library adds Content-Type itself) made with a headers object that the caller then uses again for an
         # ordinary request: the second request must carry the caller's lines, not what the library added for the first
         sc["json"] = {"a": 1, "k": "\u00e9"}
+        if rng.random() < 0.4:
+            sc["fields"] = True  # the same idea with fields= (the library generates a multipart Content-Type)
         sc["method"], sc["body"] = "POST", None
         sc["headers"] = [h for h in sc["headers"] if h[1] != SKIP and h[0].lower() not in ("content-type", "content-length", "transfer-encoding", "host")]
         sc["container"] = rng.choice(["hhd", "hhd", "dict"])
@@ -241,7 +243,7 @@ def run(sc: dict) -> Result:
             elif entry == "pool":
                 p = holder["obj"] = holder["obj"] or urllib3.HTTPConnectionPool("h.test", 80, timeout=3.0)
                 if sc.get("json") is not None:
-                    p.request(method, path, json=sc["json"], headers=hdrs, retries=False)
+                    p.request(method, path, headers=hdrs, retries=False, **({"fields": {"a": "1", "k": "\u00e9"}, "multipart_boundary": "simb0undary"} if sc.get("fields") else {"json": sc["json"]}))
                 else:
                     p.urlopen(method, path, body=body, headers=hdrs, retries=False)
             elif entry == "proxy":
@@ -251,7 +253,7 @@ def run(sc: dict) -> Result:
             else:
                 pm = holder["obj"] = holder["obj"] or urllib3.PoolManager(timeout=3.0)
                 if sc.get("json") is not None:
-                    pm.request(method, "http://h.test" + path, json=sc["json"], headers=hdrs, retries=False)
+                    pm.request(method, "http://h.test" + path, headers=hdrs, retries=False, **({"fields": {"a": "1", "k": "\u00e9"}, "multipart_boundary": "simb0undary"} if sc.get("fields") else {"json": sc["json"]}))
                 else:
                     pm.request(method, "http://h.test" + path, body=body, headers=hdrs, retries=False)
         except (W.SimHang, W.StepLimit) as e:
@@ -415,7 +417,7 @@ def check_request(sc, req, res, entry):
     if entry == "proxy" and "accept" not in keys:
         allowed[b"accept"] = printable  # (a ProxyManager adds Accept to forwarded requests, like Host only when the caller gave none)
     if sc.get("json") is not None and "content-type" not in keys:
-        allowed[b"content-type"] = lambda v: v == b"application/json"
+        allowed[b"content-type"] = (lambda v: v.startswith(b"multipart/form-data; boundary=")) if sc.get("fields") else (lambda v: v == b"application/json")
     if entry == "pm" and sc["body"] is None and False:
         pass
     seen = set()
@@ -428,7 +430,9 @@ def check_request(sc, req, res, entry):
             return
         seen.add(key)
     # ---- body
-    if sc.get("json") is not None:
+    if sc.get("fields"):
+        res.probes["fields_body_not_judged"] += 1  # (multipart encoding is another property's business)
+    elif sc.get("json") is not None:
         import json as _json
 
         want = _json.dumps(sc["json"], separators=(",", ":"), ensure_ascii=False).encode("utf-8")
